@@ -80,9 +80,9 @@ def run(ctx, rule, names):
     facts = ctx.facts("E")
     # the facts may come from the cache while the shared target directory has since been used for another tree (a scratch
     # copy in the thorough tier, a parallel run): the witnesses must link against THIS tree's metadata
-    if _target_tree("E") != facts.info.get("tree_hash"):
-        build.build("E", force=True, repo=ctx.repo)
     with build.Lock("build-E"):
+        if _target_tree("E") != facts.info.get("tree_hash"):
+            build.build("E", force=True, repo=ctx.repo, have_lock=True)
         return _run_locked(ctx, rule, names, facts)
 
 
